@@ -926,7 +926,14 @@ where
         let mom_plus = mom_prime.clone();
         let grad_minus = grad_prime.clone();
         let grad_plus = grad_prime.clone();
-        let alpha_prime = T::min(T::one(), (joint - joint_0).exp());
+        // A NaN energy (the trajectory left the target's support) is a rejection: `T::min` would
+        // ignore the NaN and report an acceptance probability of one, which drives the dual
+        // averaging towards ever larger step sizes.
+        let alpha_prime = if joint.is_nan() {
+            T::zero()
+        } else {
+            T::min(T::one(), (joint - joint_0).exp())
+        };
         let n_alpha_prime = 1_usize;
         #[cfg(feature = "verif-hooks")]
         if crate::verif::enabled() {
